@@ -167,8 +167,8 @@ type vcDerived struct {
 func vcOp(cfg *vcCfg, l *vcLoaded, groups []discover.GpuInfoList) (string, vcDerived) {
 	f := l.f
 	var sb strings.Builder
-	// code variant the model is to mirror: 0 = pinned, 1 = with proposed fix C16-W1 applied
-	fmt.Fprintf(&sb, "c16 %d %d %d", zzverif.EnvInt("VERIF_C16_VARIANT", 0), cfg.NumGPU, envconfig.GpuOverhead())
+	// code variant the model is to mirror: 0 = pinned, 1 = with fix C16-W1 (detected by vcDetectVariant)
+	fmt.Fprintf(&sb, "c16 %d %d %d", vcVariant, cfg.NumGPU, envconfig.GpuOverhead())
 	numCtx := cfg.NumCtx
 	fmt.Fprintf(&sb, " %d", len(l.projs))
 	for _, p := range l.projs {
@@ -917,6 +917,38 @@ func (v *vcRunner) model(r *zzverif.Rng, perModel int) {
 	}
 }
 
+// vcVariant: which variant of the overhead comparisons the tree under test implements.
+var vcVariant = 0
+
+// vcDetectVariant probes the REAL estimator with the W1 input (OLLAMA_GPU_OVERHEAD = 2^64-1, one
+// GPU with 1 GiB free): the pinned comparisons wrap and offload layers (variant 0); with fix C16-W1
+// (`free < overhead || free-overhead < ...`) nothing is offloaded (variant 1).  A tree that is
+// neither shows up as L1 disagreements.  VERIF_C16_VARIANT overrides the probe.
+func vcDetectVariant(dir string) int {
+	if v := os.Getenv("VERIF_C16_VARIANT"); v != "" {
+		return zzverif.EnvInt("VERIF_C16_VARIANT", 0)
+	}
+	cfg := &vcCfg{Model: vcFile{Arch: "llama", Vocab: 4, U32: map[string]uint32{
+		"block_count": 2, "embedding_length": 64, "attention.head_count": 8, "attention.head_count_kv": 8, "context_length": 2048},
+		Tensors: []vcTensor{{Name: "blk.0.attn_q.weight", Kind: 0, Shape: []uint64{1048576}}, {Name: "blk.1.attn_q.weight", Kind: 0, Shape: []uint64{1048576}},
+			{Name: "token_embd.weight", Kind: 0, Shape: []uint64{65536}}}},
+		GPUs: []vcGPU{{Lib: "cuda", Free: 1 << 30}}, NumGPU: -1, NumCtx: 2048, NumBatch: 512, Parallel: 1, Overhead: ^uint64(0)}
+	d, err := os.MkdirTemp(dir, "probe")
+	if err != nil {
+		panic(err)
+	}
+	l, err := vcLoad(d, cfg)
+	if err != nil {
+		panic(err)
+	}
+	os.Setenv("OLLAMA_GPU_OVERHEAD", strconv.FormatUint(cfg.Overhead, 10))
+	e := EstimateGPULayers(vcGpuList(cfg), l.f, nil, vcOpts(cfg), 1)
+	if e.Layers > 0 {
+		return 0
+	}
+	return 1
+}
+
 func TestVerifC16(t *testing.T) {
 	slog.SetDefault(slog.New(slog.NewTextHandler(io.Discard, nil)))
 	t.Setenv("OLLAMA_FLASH_ATTENTION", "")
@@ -925,6 +957,8 @@ func TestVerifC16(t *testing.T) {
 	out := zzverif.NewOut()
 	defer out.Close()
 	v := &vcRunner{out: out, dir: t.TempDir()}
+	vcVariant = vcDetectVariant(v.dir)
+	out.Count(fmt.Sprintf("code_variant_%d", vcVariant))
 
 	if rp := os.Getenv("VERIF_REPLAY"); rp != "" {
 		raw, err := os.ReadFile(rp)
